@@ -87,6 +87,9 @@ pub struct C11Plan {
     /// the file with this id fails or comes back short.
     #[serde(default)]
     pub fs_faults: Vec<FsFault>,
+    /// Indices into `files`: these recognised files are symbolic links to a file stored elsewhere.
+    #[serde(default)]
+    pub symlinks: Vec<u8>,
 }
 
 #[derive(Clone, Copy, Debug, PartialEq, Serialize, Deserialize)]
@@ -203,7 +206,16 @@ pub fn run_plan(plan: &C11Plan, want_trace: bool) -> RunOut {
         let p = dir.join(rel);
         std::fs::create_dir_all(p.parent().unwrap()).expect("mkdir");
         let c = content(plan.content_seed, id, *size);
-        std::fs::write(&p, &c).expect("write payload file");
+        if plan.symlinks.contains(&(truth.len() as u8)) {
+            // the recognised path is a symbolic link to the real file, kept outside the payload tree
+            let store = scratch.0.join("store");
+            std::fs::create_dir_all(&store).expect("store dir");
+            let target = store.join(format!("blob-{id:02x}"));
+            std::fs::write(&target, &c).expect("write link target");
+            std::os::unix::fs::symlink(&target, &p).expect("symlink");
+        } else {
+            std::fs::write(&p, &c).expect("write payload file");
+        }
         truth.insert(id, c);
     }
     for (rel, is_dir) in &plan.extra {
@@ -955,7 +967,15 @@ pub fn random_plan(rng: &mut Rng, max_size: u32) -> C11Plan {
         paced_gaps_ms: vec![],
         cut: None,
         fs_faults: vec![],
+        symlinks: vec![],
     };
+    if rng.pct(15) {
+        for k in 0..p.files.len() {
+            if rng.pct(50) {
+                p.symlinks.push(k as u8);
+            }
+        }
+    }
     if rng.pct(25) && !present.is_empty() {
         // file-system faults: the nth open / read_at of a present file fails or comes back short
         for _ in 0..1 + rng.usize_below(3) {
@@ -1015,9 +1035,9 @@ impl Check for C11 {
     fn families(&self, tier: Tier, _seed: u64) -> Vec<Family<C11Plan>> {
         let mut fams = vec![];
         // each recognised path alone, requested at 0, mid, end, beyond
-        fams.push(Family::new("each_recognised_path_alone", 21 * 3, true, |i, rng| {
-            let pi = (i / 3) as u8;
-            let block = [1u32, 256, 1000][(i % 3) as usize];
+        fams.push(Family::new("each_recognised_path_alone", 21 * 6, true, |i, rng| {
+            let pi = (i / 6) as u8;
+            let block = [1u32, 256, 1000][((i / 2) % 3) as usize];
             let size = 2 * block + 1;
             let id = ID_TABLE[pi as usize].1;
             C11Plan {
@@ -1040,6 +1060,8 @@ impl Check for C11 {
                 paced_gaps_ms: vec![],
                 cut: None,
                 fs_faults: vec![],
+                // every other one as a symbolic link to a file stored elsewhere
+                symlinks: if i % 2 == 1 { vec![0] } else { vec![] },
             }
         }));
         // the terminal pauses (11 s, 61 s, 1 h) at every byte position of a three-request upload: between
@@ -1065,6 +1087,7 @@ impl Check for C11 {
                     paced_gaps_ms: vec![0, gaps[(i % gaps.len() as u64) as usize]],
                     cut: None,
                     fs_faults: vec![],
+                symlinks: vec![],
                 }
             }));
         }
@@ -1105,6 +1128,7 @@ impl Check for C11 {
                 paced_gaps_ms: vec![],
                 cut: None,
                 fs_faults: vec![FsFault { file: id, op, nth, kind }],
+                symlinks: vec![],
             }
         }));
         let (count, max_size) = match tier {
